@@ -614,6 +614,12 @@ class Unit:
         rec.contracted = bool(hdr_clauses) or any(c[0] in ('loop',) for c in clauses)
         if body < 0:
             return
+        if 'stub' in opts:
+            # assumed function whose body cannot even be type-checked in the unit (foreign types): body dropped, contract assumed
+            if 'external_body' not in opts:
+                raise GenError('opt stub requires opt external_body (%s)' % rec.selector)
+            edits.append(Edit(toks[body].start, toks[br[body]].end, '{ unimplemented!() /* body not included: assumed contract */ }', None, prio=0))
+            return
         # loops
         loops = []
         j = body + 1
